@@ -120,4 +120,43 @@ CHECKS.update({
     },
 })
 
+CHECKS.update({
+    "C15": {
+        "text": "Histories inside one process (solve, create solvers, partial next(), abandon iterators, register clones of shipped propagators / heuristics / consistency algorithms and solve through the clone indices, reuse one Problem "
+        "object for a second solver while the first is alive): every observation (solution sequence + all 13 statistics) must equal the first observation of the same problem/configuration; the complete observation lists of a batch "
+        "are then compared with a fresh process in the other execution mode (compiled vs NUMBA_DISABLE_JIT) and with a second fresh process in the same mode.",
+        "note": "Trusted: Hypothesis, JSON equality of observation lists. Cost-table heuristics are not part of the histories. Cross-process failures are reported unshrunk (the comparison happens after the batch).",
+        "technique": "property-based testing: operation histories with a first-observation oracle + differential across execution modes and fresh processes",
+    },
+    "C16": {
+        "text": "Single filtering calls on boxes that stress scratch arrays and index clamping (alldifferent/gcc up to 12-16 variables with equal/nested/point bounds, element_* with index domains straddling the list ends, no_sub_cycle/scc, "
+        "relation with many tuples) and real searches with cost tables exactly as wide as the domains: under interpretation no IndexError/OverflowError may come from a nucs frame and no variable heuristic may return a negative index; the "
+        "same generators run against an engine compiled with NUMBA_BOUNDSCHECK=1, whose bounds violations are captured per case (exceptions or 'Exception ignored' output on stderr).",
+        "note": "Trusted: NumPy's and Numba's bounds checking. A negative index wraps silently in both and is visible only through its consequences (stated limit in DESIGN.md section 7).",
+        "technique": "property-based testing: Hypothesis stress generators under interpretation and under a bounds-checked compilation",
+    },
+    "C18": {
+        "category": "fault_enumeration",
+        "text": "The fault space is enumerated with real forked processes: 1..3 (thorough 1..4) workers x victim x death point (before the first message, after 1/2(/4) messages, just before the completion marker) x kind (os._exit, uncaught "
+        "exception, SIGKILL) x operation (enumerate / minimise / maximise), plus sequences of two dying workers and fault-free controls. The fault is injected from the parent by rebinding the worker entry points to a wrapper handing the "
+        "victim a queue proxy that dies at the enumerated point; the real parent loop is under test. The call must return (only solutions, no duplicates) or raise within 40 s.",
+        "note": "Inherently a wall-clock oracle ('does not block forever' observed as 'returns or raises within 40 s' where the fault-free call takes well under a second). Death in the middle of a pipe write is not injected.",
+        "technique": "fault injection: exhaustive enumeration of worker death points/kinds with real processes, deadline oracle",
+    },
+    "C19": {
+        "text": "Stack sweep: stack_max_height in {1,2,3,4,8,16,127,128,129,255,256,257,300,512} x problems whose search depth is height-3..height+4 x heuristics (mid pushes two levels) x BC/shaving, differential against the same run on an "
+        "ample stack: either an exception / refusal, or exactly the same first m solutions and statistics. Size sweep around the 8/16-bit limits (total scope length, total parameter length, number of shared domains around 65536, algorithm "
+        "index around 256, heights around 256 and 65536) on problems with an analytically known solution set. Runs in isolated compiled workers: a worker killed by a signal is a verdict (confirmed in a fresh process).",
+        "note": "Trusted: the run with an ample stack as reference (its correctness is C02's matter). Sizes beyond 131080 and domain values beyond 32 bits are not generated.",
+        "technique": "property-based testing: boundary sweeps (Hypothesis sampled_from around limits) with a differential ample-capacity oracle in crash-isolated workers",
+    },
+    "C20": {
+        "text": "Every shipped model at sizes within reach, symmetry breaking on/off, BC / shaving / Golomb's own algorithm, variable and value heuristics, 1..3 workers over split(): each returned vector is checked by a definition-level "
+        "validator written from the problem statement; counts and optima are compared with the literature (queens, latin squares, magic squares, Golomb, QG5) or with independent brute force (magic sequences, Schur, BIBD, tournament "
+        "scheduling n=4, knapsack, circuits, TSP on generated matrices); symmetry variants must stay satisfiable exactly when the base problem is.",
+        "note": "Trusted: the validators and brute-force counters of vlib/models.py, the cited literature values. Larger instances only with configurations that solve them in seconds; a slow case is 'inconclusive', never a violation.",
+        "technique": "property-based testing: generated (model, instance, configuration) cases vs definition-level validators and independent counts",
+    },
+})
+
 NOT_APPLICABLE_REASON = {}
